@@ -687,11 +687,8 @@ func setFromParamVal(buf []byte, pf *PFromBody) ErrorHdr {
 
 func pUInt64Val(b []byte) (n uint64, err ErrorHdr) {
 
-	if len(b) > 20 {
-		err = ErrHdrValTooLong
-		return
-	}
-
+	// no length limit: leading zeros are harmless and a value that does
+	// not fit is caught (and saturated) by the overflow check below
 	for _, c := range b {
 		if c < '0' || c > '9' {
 			err = ErrHdrValNotNumber
